@@ -855,6 +855,87 @@ def gen_c18_reject_case(seed, idx):
                 desc=dict(shape=f'{kind}{nf}'), expect_error='supports only single field struct')
 
 
+# ---------------------------------------------------------------- C14: the item is re-emitted (through the real entry points)
+C14_PRELUDE = '''#![allow(dead_code, unused_imports, unused_variables, non_snake_case)]
+use derive_ex::{derive_ex, Ex};
+'''
+
+
+def gen_c14_program(seed, start, count):
+    """Foreign content of the item must survive the attribute macro: std derives (with their own `#[default]` helper when
+    derive_ex does not derive Default), repr + explicit discriminants, visibility, generics; observed by behaviour."""
+    rng = random.Random(seed * 3000017 + start)
+    src = C14_PRELUDE
+    cases = []
+    for idx in range(start, start + count):
+        mod = f'c{idx}'
+        kind = rng.choice(['enum_default', 'enum_discr', 'struct_derives', 'struct_generic'])
+        if kind == 'enum_default':
+            # std Default with its `#[default]` marker; derive_ex derives something else
+            tr = rng.choice(['Clone', 'Debug', 'PartialEq', 'Clone, PartialEq', 'Hash', 'Eq, PartialEq'])
+            std = 'Default' + ('' if 'Debug' in tr else ', Debug')
+            dv = rng.randrange(3)
+            vs = ', '.join(('#[default] ' if i == dv else '') + n for i, n in enumerate(['A', 'B', 'C']))
+            first = rng.random() < 0.5
+            heads = [f'#[derive_ex({tr})]', f'#[derive({std})]']
+            head = ' '.join(heads if first else heads[::-1])
+            decl = f'{head} pub enum X {{ {vs} }}'
+            if not first:
+                # a std derive placed before the attribute macro sees the item first: still fine
+                pass
+            check = (f'  n += 1; if format!("{{:?}}", X::default()) != "{["A", "B", "C"][dv]}" {{ println!("{mod} FAIL the #[default] marker of the std derive was not kept"); }}\n')
+        elif kind == 'enum_discr':
+            tr = rng.choice(['Clone', 'Clone, Copy', 'PartialEq', 'Debug'])
+            d0, d1 = rng.randrange(1, 5), rng.randrange(7, 200)
+            decl = f'#[derive_ex({tr})] #[repr(u8)] pub enum X {{ A = {d0}, B = {d1}, C }}'
+            check = (f'  n += 1; if (X::A as u8, X::B as u8, X::C as u8) != ({d0}, {d1}, {d1 + 1}) {{ println!("{mod} FAIL discriminants / repr changed"); }}\n'
+                     f'  n += 1; if std::mem::size_of::<X>() != 1 {{ println!("{mod} FAIL #[repr(u8)] was not kept"); }}\n')
+        elif kind == 'struct_derives':
+            tr = rng.choice(['PartialEq', 'Eq, PartialEq', 'PartialOrd, PartialEq', 'Hash'])
+            # helper-named attributes of traits that are not being derived stay: `#[default]`-less std derives, `#[debug]` is not std
+            decl = (f'#[derive(Debug, Clone, Default)] #[derive_ex({tr})] #[repr(C)] pub struct X {{ pub a: u8, #[doc = "second"] pub(crate) b: u32 }}')
+            check = (f'  n += 1; let x = X::default(); if format!("{{:?}}", x.clone()) != "X {{ a: 0, b: 0 }}" {{ println!("{mod} FAIL the std derives on the item were not kept"); }}\n'
+                     f'  n += 1; if std::mem::size_of::<X>() != 8 {{ println!("{mod} FAIL #[repr(C)] was not kept"); }}\n')
+        else:
+            tr = rng.choice(['Clone', 'Default', 'Debug'])
+            decl = (f'#[derive_ex({tr})] pub struct X<T: Copy = u8> where T: Sized {{ #[cfg(all())] pub a: T, #[allow(unused)] pub c: (u8, T) }}')
+            check = (f'  n += 1; let x: X = X {{ a: 1u8, c: (2u8, 3u8) }}; if x.a + x.c.0 + x.c.1 != 6 {{ println!("{mod} FAIL fields changed"); }}\n')
+        body = f'pub mod {mod} {{ use super::*;\n {decl}\n pub fn run() {{ let mut n = 0u32;\n{check}  println!("{mod} ok {{}}", n); }}\n}}\n'
+        src += body
+        cases.append(dict(mod=mod, item=decl, traits=[t.strip() for t in tr.split(',')], shape=kind, raw=False))
+    src += 'fn main() { ' + ' '.join(f"{c['mod']}::run();" for c in cases) + ' }\n'
+    return src, cases
+
+
+def gen_c14_error_case(seed, idx):
+    """When derivation fails, the item - with all its foreign content - is still emitted next to the compile error: the only
+    errors rustc reports are derive_ex's own (no unresolved type, no std derive tripping over a missing helper attribute)."""
+    rng = random.Random(seed * 3000029 + idx)
+    kind = rng.choice(['unknown_trait', 'enum_unsupported', 'misuse', 'dup_helper', 'bad_arg', 'not_item'])
+    uses = 'pub fn use_it(x: &X) -> String { format!("{:?}", x) }\n'
+    if kind == 'unknown_trait':
+        item = '#[derive_ex(Clone, Foo)] #[derive(Debug)] pub struct X { pub a: u8 }'
+        msgs = ['Foo', 'unsupported', 'unknown', 'not supported']
+    elif kind == 'enum_unsupported':
+        t = rng.choice(['Deref', 'Add', 'Neg', 'AddAssign'])
+        item = f'#[derive_ex(Clone, {t})] #[derive(Debug, Default)] pub enum X {{ A, #[default] B(u8) }}'
+        msgs = ['not support', 'enum', 'struct']
+    elif kind == 'misuse':
+        item = '#[derive_ex(PartialEq, Eq, PartialOrd, Ord)] #[derive(Debug)] pub struct X { #[partial_ord(key = $.len())] pub a: String }'
+        msgs = ['default implementation of', 'was specified']
+    elif kind == 'dup_helper':
+        item = '#[derive_ex(PartialEq)] #[derive(Debug)] pub struct X { #[partial_eq(ignore)] #[partial_eq(ignore)] pub a: u8 }'
+        msgs = ['specified twice']
+    elif kind == 'bad_arg':
+        item = '#[derive_ex(Clone(frobnicate))] #[derive(Debug, Default)] pub enum X { #[default] A, B }'
+        msgs = ['frobnicate', 'unexpected', 'expected', 'cannot find']
+    else:
+        item = '#[derive_ex(Clone)] pub fn f() {}\n#[derive(Debug)] pub struct X;'
+        msgs = ['can be specified only for']
+    src = '#![allow(dead_code, unused_imports)]\nuse derive_ex::{derive_ex, Ex};\n' + item + '\n' + uses
+    return dict(id=f'c14e/{seed}/{idx}', src=src, item=item, desc=dict(kind=kind), expect_only_error=msgs)
+
+
 # ---------------------------------------------------------------- C17: Eq only if every compared component is Eq
 C17_PRELUDE = '''#![allow(dead_code, unused_imports, non_snake_case)]
 use derive_ex::{derive_ex, Ex};
